@@ -689,6 +689,11 @@ func cmdDrive(args []string) {
 			if p.Race() {
 				env = raceEnv(*scratch, fmt.Sprintf("w%d", w))
 			}
+			if os.Getenv("GOMAXPROCS") == "" {
+				// one task runs at a time under the baton and there is one worker process per core: more Ps per
+				// process only buy scheduler and collector overhead (the sampled repeat runs use 1 and 4)
+				env = append(env, "GOMAXPROCS=2")
+			}
 			l, se, err := spawn(a, env)
 			results[w] = wres{l, se, err}
 		}(w)
